@@ -209,7 +209,7 @@ var coreCache []string
 // ChildAsField, CollidingNames), whose members differ from each other in identifiers only.
 func CoreBase() []string {
 	fam := map[string]bool{}
-	for _, f := range [][]string{ScopeExit(), KeywordIdents(), ChildAsField(), CollidingNames()} {
+	for _, f := range [][]string{ScopeExit(), KeywordIdents(), ChildAsField(), CollidingNames(), BlockValueOps()} {
 		for _, s := range f {
 			fam[s] = true
 		}
@@ -265,6 +265,9 @@ func Core() []string {
 		add(s)
 	}
 	for _, s := range CollidingNames() {
+		add(s)
+	}
+	for _, s := range BlockValueOps() {
 		add(s)
 	}
 	// constants of every kind in one program (for dump/load)
@@ -569,6 +572,23 @@ func CollidingNames() []string {
 			"def blk { "+a+" = 1; def in { "+b+" = 2; r = "+a+"; s = "+b+" }; t = "+a+" }",
 			"def "+a+" { x = 1 }\ndef "+b+" { x = 2 }\nbind "+a+" -> struct",
 		)
+	}
+	return out
+}
+
+// BlockValueOps: a closed child block read through its key is a value; every operator and statement is applied
+// to such values (what they give is left open, but it must be a value or a runtime error, never a crash), for
+// children that are empty, hold scalars, and hold children of their own down to three levels.
+func BlockValueOps() []string {
+	kids := []string{"def k {}", "def k { p = 1 }", "def k { def m {} }", "def k { p = 1; def m { q = 2; def n { r = nil } } }"}
+	uses := []string{"print k == k", "x = k != k", "x = k == 1", "x = nil == k", "x = not k", "x = k and 1", "x = k or 2", "x = - k", "x = + k", "x = k + 1", "x = \"s\" + k",
+		"x = k * 2", "x = k < k", "x = k >= 1", "x = k / k", "print k", "var v = k; y = v == k; z = v", "x = k; y = x == k", "eval k", "x = (k == k) == (k != k)"}
+	var out []string
+	for _, kid := range kids {
+		for _, u := range uses {
+			out = append(out, "def a {\n"+kid+"\n"+u+"\n}\nprint 1")
+			out = append(out, "def a {\ndef b {\n"+kid+"\n}\ndef c {\n"+kid+"\n"+strings.ReplaceAll(u, "k == k", "k == k")+"\n}\n}")
+		}
 	}
 	return out
 }
